@@ -150,7 +150,10 @@ func VH_C18_Conn() {
 	}()
 	go func() {
 		defer wg.Done()
-		time.Sleep(time.Duration(vIntRange("close_after_ms_x700", 0, vParam("closepoints", 2))) * 700 * time.Millisecond)
+		// close instants include the keep-alive tick instants themselves (1 s,
+		// 2 s: Close coinciding with a timer expiry) and points in between
+		at := [6]time.Duration{0, 700 * time.Millisecond, time.Second, 1400 * time.Millisecond, 2 * time.Second, 2100 * time.Millisecond}
+		time.Sleep(at[vIntRange("close_at", 0, vParam("closepoints", 5))])
 		if vBool("close_client") {
 			p.cli.Close()
 		} else {
@@ -159,6 +162,43 @@ func VH_C18_Conn() {
 	}()
 	wg.Wait()
 	vReach("conn-race")
+	time.Sleep(5 * time.Second)
+	p.shutdown()
+}
+
+// VH_C18_CloseVsTick: Close while the send loop is held up inside a slow
+// transport write and a keep-alive tick has expired meanwhile: when the write
+// returns, the loop finds both the quit signal and the tick ready. Whatever
+// it picks, nothing panics (tickers stopped by Close are not reset or resumed
+// afterwards) and Close returns.
+func VH_C18_CloseVsTick() {
+	p := vConnect(uint8(vIntRange("n", 1, 2)), 0, WithKeepalivePing(time.Second, time.Second))
+	if p.cliErr != nil || p.srvErr != nil {
+		return
+	}
+	p.c2s.slowData = time.Second
+	go func() {
+		for {
+			if _, err := p.srv.Recv(); err != nil {
+				return
+			}
+		}
+	}()
+	var wg sync.WaitGroup
+	wg.Add(2)
+	go func() {
+		defer wg.Done()
+		time.Sleep(500 * time.Millisecond)
+		p.cli.Send([]byte{1}) // in the transport from 0.5 s to 1.5 s; the ping tick expires at 1 s
+	}()
+	go func() {
+		defer wg.Done()
+		at := [4]time.Duration{time.Second, 1200 * time.Millisecond, 1500 * time.Millisecond, 1600 * time.Millisecond}
+		time.Sleep(at[vIntRange("close_at", 0, 3)])
+		p.cli.Close()
+	}()
+	wg.Wait()
+	vReach("close-vs-tick")
 	time.Sleep(5 * time.Second)
 	p.shutdown()
 }
